@@ -451,7 +451,7 @@ func init() {
 				gts.Joined{gts.Range(1, 3), gts.Range(5, 7)}, gts.Complemented{Location: gts.Joined{gts.Range(1, 3), gts.Range(5, 7)}},
 			}
 			keys := []string{"gene", "CDS", "source"}
-			propsets := []string{"a=x", "a=y", "a=x,z", "a=y,z"}
+			propsets := []string{"a=x", "a=y", "a=x,z", "a=y,z", "a=x;pseudo", "a=source of x"}
 			var singles []string
 			for _, l := range menu {
 				for _, k := range keys {
